@@ -67,6 +67,7 @@ class Drive:
         self.mode = 0
         self.mask = mask
         self.mode_writes = []
+        self.pdo_modes = []
         self.on_change = None
 
     def sw(self):
@@ -122,7 +123,7 @@ class Drive:
             raise canopen.SdoAbortedError(0x06020000)
 
 
-def mk_node(drive, transport, nid=3):
+def mk_node(drive, transport, nid=3, with_mode=False):
     import canopen
     import canopen.profiles.p402 as p402
     p402.time = FakeTime(tick=0.01)
@@ -131,7 +132,12 @@ def mk_node(drive, transport, nid=3):
 
     def on_send(msg):
         if msg.arbitration_id == 0x200 + nid and not msg.is_remote_frame:
-            drive.write_cw(struct.unpack_from("<H", bytes(msg.data))[0])
+            d = bytes(msg.data)
+            if len(d) >= 3:                 # RPDO1 = controlword + modes of operation
+                m = struct.unpack_from("<b", d, 2)[0]
+                drive.pdo_modes.append(m)
+                drive.mode = m
+            drive.write_cw(struct.unpack_from("<H", d)[0])
     net.bus = FakeBus(on_send)
     net.add_node(node)
     node.sdo.upload = drive.upload
@@ -140,6 +146,8 @@ def mk_node(drive, transport, nid=3):
         rp, tp = node.rpdo[1], node.tpdo[1]
         rp.cob_id, rp.enabled = 0x200 + nid, True
         rp.add_variable(0x6040, 0)
+        if with_mode:
+            rp.add_variable(0x6060, 0)
         tp.cob_id, tp.enabled = 0x180 + nid, True
         tp.add_variable(0x6041, 0)
         node.setup_pdos(upload=False)
@@ -155,7 +163,36 @@ def run_case(case: dict) -> dict:
     import logging
     logging.disable(logging.CRITICAL)
     ev = []
-    if case["kind"] == "opmode":
+    if case["kind"] == "opmode" and case.get("transport") == "pdo":
+        # controlword and modes of operation share RPDO1: after every request the state is toggled so
+        # that the RPDO goes out; the drive logs the mode byte of every RPDO it receives
+        import random
+        rng = random.Random(case.get("seed", 0))
+        for mask in case["masks"]:
+            drive = Drive([], "SWITCH ON DISABLED", False, None, mask)
+            net, node = mk_node(drive, "pdo", with_mode=True)
+            prev, flip = 0, 0
+            modes = list(case["modes"])
+            rng.shuffle(modes)
+            for mode in modes:
+                del drive.pdo_modes[:]
+                res = "ok"
+                try:
+                    node.op_mode = mode
+                except TypeError:
+                    res = "TypeError"
+                except Exception as exc:  # noqa
+                    res = "other:" + type(exc).__name__
+                try:
+                    node.state = ["READY TO SWITCH ON", "SWITCH ON DISABLED"][flip]
+                    flip ^= 1
+                except Exception:  # noqa
+                    pass
+                ev.append({"e": "opmode_pdo", "mode": mode, "mask": mask & 0xFFFF, "seen": list(drive.pdo_modes),
+                           "prev": prev, "result": res})
+                if res == "ok":
+                    prev = drive.mode
+    elif case["kind"] == "opmode":
         import canopen  # noqa
         for mask in case["masks"]:
             for mode in case["modes"]:
